@@ -9,7 +9,8 @@
 //	             cut by a process stop right after its datastore mutation or failed by an I/O error, clean
 //	             restarts, and rounds of concurrent dials in both directions (G dials P/Q through /ip4, /ip6,
 //	             /ip6/::ffff:a.b.c.d, /dns4, /dns6, /dns forms resolved by a fake resolver, plus decoy addresses
-//	             nobody listens on; P/Q dial G). A restart closes G and builds a new node with a NEW gater
+//	             nobody listens on; P/Q dial G; every dial is triggered either by Swarm.DialPeer or by
+//	             Swarm.NewStream, which dials when it finds no connection). A restart closes G and builds a new node with a NEW gater
 //	             opened on the same Disk.
 //	hooks-direct the gater alone (same histories, faults, restarts); after every call every Intercept* hook is
 //	             asked about every pool IP in every textual form (/ip4, /ip6, /ip6/::ffff:…, /ip6zone, quic-v1,
@@ -731,6 +732,7 @@ func (fs *fullStack) startG() bool {
 	}
 	fs.G = nd
 	fs.gClosed = false
+	nd.Swarm.SetStreamHandler(func(s network.Stream) { s.Reset() })
 	nd.Swarm.Notify(&network.NotifyBundle{ConnectedF: func(_ network.Network, c network.Conn) {
 		ev := connEvent{stamp: simrt.Stamp(), conn: c, peer: c.RemotePeer(), addr: c.RemoteMultiaddr(), dir: c.Stat().Direction}
 		fs.mu.Lock()
@@ -781,8 +783,11 @@ func (fs *fullStack) hostByIP(ip net.IP) *host {
 type dialTask struct {
 	label    string
 	from, to string
+	trigger  int // 0 Swarm.DialPeer, 1 Swarm.NewStream (dials when it finds no connection)
 	err      error
 }
+
+var triggerName = []string{"DialPeer", "NewStream"}
 
 func short(err error) string {
 	if err == nil {
@@ -834,13 +839,16 @@ func (fs *fullStack) round() {
 			}
 			fs.G.PS.ClearAddrs(h.node.ID)
 			fs.G.PS.AddAddrs(h.node.ID, addrs, peerstore.PermanentAddrTTL)
-			tasks = append(tasks, &dialTask{label: "G->" + h.name, from: "G", to: h.name})
-			desc = append(desc, fmt.Sprintf("G->%s via %v", h.name, names))
+			tr := fs.g.Int(2)
+			fs.probe("G-dials-by-" + triggerName[tr])
+			tasks = append(tasks, &dialTask{label: "G->" + h.name, from: "G", to: h.name, trigger: tr})
+			desc = append(desc, fmt.Sprintf("G->%s by %s via %v", h.name, triggerName[tr], names))
 			involved[h] = true
 		}
 		if mask&(1<<(2*i+1)) != 0 {
-			tasks = append(tasks, &dialTask{label: h.name + "->G", from: h.name, to: "G"})
-			desc = append(desc, h.name+"->G")
+			tr := fs.g.Int(2)
+			tasks = append(tasks, &dialTask{label: h.name + "->G", from: h.name, to: "G", trigger: tr})
+			desc = append(desc, fmt.Sprintf("%s->G by %s", h.name, triggerName[tr]))
 			involved[h] = true
 		}
 	}
@@ -881,7 +889,17 @@ func (fs *fullStack) round() {
 				src = fs.byName(tk.from).node
 				dst = fs.G.ID
 			}
-			_, tk.err = src.Swarm.DialPeer(ctx, dst)
+			if tk.trigger == 1 {
+				// every public entry point that may dial is a dial trigger: NewStream dials when the swarm has
+				// no connection to the peer. The stream itself is of no interest here.
+				var str network.Stream
+				str, tk.err = src.Swarm.NewStream(ctx, dst)
+				if str != nil {
+					str.Reset()
+				}
+			} else {
+				_, tk.err = src.Swarm.DialPeer(ctx, dst)
+			}
 			cancel()
 			simrt.Send("dial-done", done, i)
 		})
@@ -1127,6 +1145,7 @@ func (fs *fullStack) runFullStack(mode simnet.LinkMode, tapeS *simrt.Stream) {
 		}
 		h.node = nd
 		defer nd.Close()
+		nd.Swarm.SetStreamHandler(func(s network.Stream) { s.Reset() })
 		nd.PS.AddAddrs(fs.ids["G"], []ma.Multiaddr{fs.G.Addr}, peerstore.PermanentAddrTTL)
 		if nd.ID != fs.ids[h.name] {
 			fs.trouble("identity mismatch for %s", h.name)
